@@ -183,6 +183,8 @@ impl Engine for C06 {
                 (format!("failing:{}", d.1), Doc::from_str(&d.0), Cfg::default())
             }
             6 if index % 16 == 6 => ("real-svg".to_string(), Doc::from_str(&docgen::real_svg_doc(&mut w)), docgen::draw_cfg(&mut c, false)),
+            5 if index % 16 == 5 => ("crlf".to_string(), Doc::from_str(&docgen::crlf_doc(&mut w)), docgen::draw_cfg(&mut c, false)),
+            7 if index % 16 == 7 => ("failing:many".to_string(), Doc::from_str(&docgen::many_failures_doc(&mut w)), Cfg::default()),
             6 if index % 16 == 14 => ("odd-config".to_string(), Doc::from_str(&docgen::odd_config_doc(&mut w)), docgen::draw_cfg(&mut c, false)),
             5 => {
                 // multi-error document: several unresolvable elements => MultiError rendering
@@ -342,6 +344,7 @@ impl Engine for C06 {
                         res.stats.probe("input_delivered_in_small_chunks");
                     }
                     let other = scn.other_doc.clone();
+                    let inc_entropy = inc.entropy;
                     if interfere != 0 {
                         res.stats.probe("history_before_transform_on_same_thread");
                     }
@@ -366,6 +369,9 @@ impl Engine for C06 {
                         if interfere & 4 != 0 {
                             // failing transforms, early and late (after output has begun),
                             // through both library entry points
+                            // (and one which runs into a limit, configured or internal)
+                            let lim = docgen::limit_hitting_doc(&mut Rng::sub(inc_entropy, "limit-history"));
+                            let _ = fe_str(lim.as_bytes(), &cfg);
                             for bad in [
                                 "<svg><rect xy=\"#nope|h\" wh=\"1\"/><g fill=\"red\"><rect xy=\"#nope2|h\"/></g></svg>",
                                 "<!-- stale --><svg width=\"wide\"><rect wh=\"5\" text=\"stale\"/></svg>",
